@@ -387,10 +387,70 @@ template <class G> bool lightSame(const G &g, const Model &m) {
     }
     return true;
 }
+// one (graph, subset) case of both entry points
+template <class G> void c10One(const G &g, const Model &m, const std::unordered_set<VertexIndex> &S, const std::string &st, const std::string &prefix, bool compareFresh, ClauseSink &sink) {
+    using T = Tr<G>;
+    if constexpr (T::fam == PLAIN) {
+        const std::string gname = m.n <= 8 ? m.str() : "a graph on " + std::to_string(m.n) + " vertices with " + std::to_string(m.e.size()) + " edges";
+        Model ind;
+        ind.directed = T::directed;
+        ind.n = m.n;
+        for (auto &p : m.e)
+            if (S.count(p.first.first) && S.count(p.first.second)) ind.e[p.first] = p.second;
+        ++g_cases;
+        if (!ind.e.empty() && ind.e.size() != m.e.size()) ++g_nontrivial;
+        ++sink.evaluated;
+        try {
+            G sub = algorithms::getSubgraph(g, S);
+            digestNum(sub.getEdgeNumber());
+            if (!lightSame(sub, ind) || (compareFresh && !(sub == fresh<G>(ind)))) {
+                ClauseSink inner;
+                if (m.n <= 40) checkState(sub, ind, inner);
+                for (auto &f : inner.failures) sink.fail("c10.subgraph", "getSubgraph(" + gname + ", " + st + ")" + prefix + ": " + f.second);
+                if (inner.failures.empty()) sink.fail("c10.subgraph", "getSubgraph(" + gname + ", " + st + ")" + prefix + " is not the induced subgraph (" + std::to_string(sub.getEdgeNumber()) + " edges, expected " + std::to_string(ind.e.size()) + ")");
+            }
+        } catch (...) {
+            sink.fail("c10.subgraph", "getSubgraph(" + gname + ", " + st + ")" + prefix + " threw " + outcomeName(classifyCurrentException()));
+        }
+        ++sink.evaluated;
+        try {
+            auto res = algorithms::getSubgraphWithRemap(g, S);
+            const G &sub = res.first;
+            const auto &map = res.second;
+            std::string where = "getSubgraphWithRemap(" + gname + ", " + st + ")" + prefix;
+            if (sub.getSize() != S.size()) sink.fail("c10.remap", where + ": returned graph has " + std::to_string(sub.getSize()) + " vertices, expected " + std::to_string(S.size()));
+            std::set<unsigned> image;
+            bool domOk = map.size() == S.size();
+            for (auto &kv : map) {
+                if (!S.count(kv.first)) domOk = false;
+                image.insert(kv.second);
+            }
+            for (auto v : S)
+                if (!map.count(v)) domOk = false;
+            bool imgOk = image.size() == S.size() && (image.empty() || *image.rbegin() == S.size() - 1);
+            if (!domOk || !imgOk) {
+                sink.fail("c10.remap", where + ": the returned map is not a bijection from S onto 0..|S|-1");
+            } else if (sub.getSize() == S.size()) {
+                Model mapped;
+                mapped.directed = T::directed;
+                mapped.n = (unsigned)S.size();
+                for (auto &p : ind.e) mapped.e[mapped.canon(map.at(p.first.first), map.at(p.first.second))] = p.second;
+                if (!lightSame(sub, mapped) || (compareFresh && !(sub == fresh<G>(mapped)))) {
+                    ClauseSink inner;
+                    if (m.n <= 40) checkState(sub, mapped, inner);
+                    for (auto &f : inner.failures) sink.fail("c10.remap", where + " (compared through the returned map): " + f.second);
+                    if (inner.failures.empty()) sink.fail("c10.remap", where + " is not the induced subgraph mapped through the returned map (" + std::to_string(sub.getEdgeNumber()) + " edges, expected " + std::to_string(mapped.e.size()) + ")");
+                }
+            }
+        } catch (...) {
+            sink.fail("c10.remap", "getSubgraphWithRemap(" + gname + ", " + st + ")" + prefix + " threw " + outcomeName(classifyCurrentException()));
+        }
+    }
+}
+
 template <class G> void c10State(const G &g, const Model &m, ClauseSink &sink, bool withRejectedPrefix) {
     using T = Tr<G>;
     if constexpr (T::fam == PLAIN) {
-        using L = typename T::Label;
         const unsigned n = m.n;
         for (unsigned mask = 0; mask < (1u << n); ++mask) {
             std::unordered_set<VertexIndex> S;
@@ -398,15 +458,7 @@ template <class G> void c10State(const G &g, const Model &m, ClauseSink &sink, b
             for (unsigned v = 0; v < n; ++v)
                 if (mask & (1u << v)) { S.insert(v); st += std::to_string(v) + " "; }
             st += "}";
-            // induced model
-            Model ind;
-            ind.directed = T::directed;
-            ind.n = n;
-            for (auto &p : m.e)
-                if ((mask >> p.first.first & 1) && (mask >> p.first.second & 1)) ind.e[p.first] = p.second;
             for (unsigned tmask = 0; tmask < (withRejectedPrefix ? (1u << n) : 1u); ++tmask) {
-                ++g_cases;
-                if (!ind.e.empty() && ind.e.size() != m.e.size()) ++g_nontrivial;
                 std::string prefix;
                 if (withRejectedPrefix) {
                     // a rejected call first: the same entry points with a vertex set that contains an
@@ -418,57 +470,140 @@ template <class G> void c10State(const G &g, const Model &m, ClauseSink &sink, b
                     try { (void)algorithms::getSubgraphWithRemap(g, B); } catch (const std::out_of_range &) {}
                     prefix = " (after a rejected call with an out-of-range member, mask " + std::to_string(tmask) + ")";
                 }
-                ++sink.evaluated;
-                try {
-                    G sub = algorithms::getSubgraph(g, S);
-                    digestNum(sub.getEdgeNumber());
-                    if (!lightSame(sub, ind) || (tmask == 0 && !(sub == fresh<G>(ind)))) {
-                        ClauseSink inner;
-                        checkState(sub, ind, inner);
-                        for (auto &f : inner.failures) sink.fail("c10.subgraph", "getSubgraph(" + m.str() + ", " + st + ")" + prefix + ": " + f.second);
-                        if (inner.failures.empty()) sink.fail("c10.subgraph", "getSubgraph(" + m.str() + ", " + st + ")" + prefix + " is not == the induced subgraph " + ind.str());
-                    }
-                } catch (...) {
-                    sink.fail("c10.subgraph", "getSubgraph(" + m.str() + ", " + st + ")" + prefix + " threw " + outcomeName(classifyCurrentException()));
-                }
-                ++sink.evaluated;
-                try {
-                    auto res = algorithms::getSubgraphWithRemap(g, S);
-                    const G &sub = res.first;
-                    const auto &map = res.second;
-                    std::string where = "getSubgraphWithRemap(" + m.str() + ", " + st + ")" + prefix;
-                    if (sub.getSize() != S.size()) sink.fail("c10.remap", where + ": returned graph has " + std::to_string(sub.getSize()) + " vertices, expected " + std::to_string(S.size()));
-                    // the map: domain exactly S, image exactly 0..|S|-1
-                    std::set<unsigned> image;
-                    bool domOk = map.size() == S.size();
-                    for (auto &kv : map) {
-                        if (!S.count(kv.first)) domOk = false;
-                        image.insert(kv.second);
-                    }
-                    for (auto v : S)
-                        if (!map.count(v)) domOk = false;
-                    bool imgOk = image.size() == S.size() && (image.empty() || *image.rbegin() == S.size() - 1);
-                    if (!domOk || !imgOk) {
-                        sink.fail("c10.remap", where + ": the returned map is not a bijection from S onto 0..|S|-1");
-                    } else if (sub.getSize() == S.size()) {
-                        Model mapped;
-                        mapped.directed = T::directed;
-                        mapped.n = (unsigned)S.size();
-                        for (auto &p : ind.e) mapped.e[mapped.canon(map.at(p.first.first), map.at(p.first.second))] = p.second;
-                        if (!lightSame(sub, mapped) || (tmask == 0 && !(sub == fresh<G>(mapped)))) {
-                            ClauseSink inner;
-                            checkState(sub, mapped, inner);
-                            for (auto &f : inner.failures) sink.fail("c10.remap", where + " (compared through the returned map): " + f.second);
-                            if (inner.failures.empty()) sink.fail("c10.remap", where + " is not == the induced subgraph mapped through the returned map, " + mapped.str());
-                        }
-                    }
-                } catch (...) {
-                    sink.fail("c10.remap", "getSubgraphWithRemap(" + m.str() + ", " + st + ")" + prefix + " threw " + outcomeName(classifyCurrentException()));
-                }
+                c10One(g, m, S, st, prefix, tmask == 0, sink);
             }
         }
     }
-    (void)sizeof(typename T::Label);
+}
+
+// Larger structured graphs x structured subsets (thresholds in |S| and n), and long call histories on one
+// graph (state leaking from one extraction to a later one, e.g. a generation counter that wraps).
+template <class G> void c10Big(ClauseSink &sink) {
+    using T = Tr<G>;
+    if constexpr (T::fam == PLAIN) {
+        using L = typename T::Label;
+        for (unsigned n : {40u, 300u, 700u}) {
+            for (int family = 0; family < 3; ++family) {
+                G g(n);
+                Model m;
+                m.directed = T::directed;
+                m.n = n;
+                long k = 0;
+                auto add = [&](unsigned i, unsigned j) {
+                    if (m.find(i, j)) return;
+                    long v = T::labelled ? 1 + (k++ % 2) : 0;
+                    if constexpr (T::labelled) g.addEdge(i, j, LabelAlpha<L>::value(v));
+                    else g.addEdge(i, j);
+                    Ent en;
+                    en.v = v;
+                    m.e[m.canon(i, j)] = en;
+                };
+                if (family == 0) { for (unsigned i = 0; i + 1 < n; ++i) add(i, i + 1); add(n - 1, 0); add(n / 2, n / 2); }
+                if (family == 1) { for (unsigned i = 0; i + 1 < n; ++i) add(n - 1, i); for (unsigned i = 1; i < n; i += 3) add(i, 0); }
+                if (family == 2) { for (unsigned i = 0; i < n; ++i) { add(i, (i * 7 + 3) % n); add((i * 5 + 1) % n, i); if (i % 11 == 0) add(i, i); } }
+                breadcrumb("C10 big n=" + std::to_string(n) + " family " + std::to_string(family));
+                std::vector<std::pair<std::string, std::unordered_set<VertexIndex>>> subsets;
+                auto range = [&](const std::string &name, unsigned from, unsigned to, unsigned step) {
+                    std::unordered_set<VertexIndex> S;
+                    for (unsigned v = from; v < to && v < n; v += step) S.insert(v);
+                    subsets.emplace_back(name, S);
+                };
+                range("all vertices", 0, n, 1);
+                range("all but vertex 0", 1, n, 1);
+                range("the first 255", 0, 255, 1);
+                range("the first 256", 0, 256, 1);
+                range("the first 257", 0, 257, 1);
+                range("the last 258", n > 258 ? n - 258 : 0, n, 1);
+                range("even vertices", 0, n, 2);
+                range("every third vertex from 1", 1, n, 3);
+                range("vertices 30..39", 30, 40, 1);
+                {   // inserted in descending order (another bucket / iteration order of the unordered_set)
+                    std::unordered_set<VertexIndex> S;
+                    for (unsigned v = n; v-- > n / 3;) S.insert(v);
+                    subsets.emplace_back("the upper two thirds, inserted descending", S);
+                }
+                for (auto &ss : subsets) c10One(g, m, ss.second, "{" + ss.first + ", |S|=" + std::to_string(ss.second.size()) + "}", "", n <= 40, sink);
+            }
+        }
+        // long histories: mark w once, then hundreds of extractions that avoid w but contain a neighbour of w
+        G g(5);
+        Model m;
+        m.directed = T::directed;
+        m.n = 5;
+        long k = 0;
+        for (unsigned i = 0; i < 5; ++i)
+            for (unsigned j = 0; j < 5; ++j) {
+                if (m.find(i, j)) continue;
+                long v = T::labelled ? 1 + (k++ % 2) : 0;
+                if constexpr (T::labelled) g.addEdge(i, j, LabelAlpha<L>::value(v));
+                else g.addEdge(i, j);
+                Ent en;
+                en.v = v;
+                m.e[m.canon(i, j)] = en;
+            }
+        for (unsigned w = 0; w < 5; ++w)
+            for (unsigned u = 0; u < 5; ++u) {
+                if (u == w) continue;
+                breadcrumb("C10 long history w=" + std::to_string(w) + " u=" + std::to_string(u));
+                c10One(g, m, {w, u}, "{" + std::to_string(w) + " " + std::to_string(u) + "}", "", false, sink);
+                for (int rep = 0; rep < 700; ++rep) {
+                    unsigned x = (u + 1 + rep % 3) % 5;
+                    if (x == w) x = u;
+                    std::unordered_set<VertexIndex> S = {u, x};
+                    c10One(g, m, S, "{" + std::to_string(u) + " " + std::to_string(x) + "}", " (call " + std::to_string(rep + 1) + " after an extraction that contained vertex " + std::to_string(w) + ")", false, sink);
+                    if (!sink.failures.empty()) return;
+                }
+            }
+    }
+}
+
+// Longer constructor inputs (thresholds in the length of the container, e.g. sort implementations that
+// switch algorithm at 16 elements): patterned sequences with repeated pairs carrying different values.
+template <class G, class Elem, class MakeElem, class AddOne> void ctorLong(Reporter &rep, const std::string &cfgName, const std::vector<long> &values, MakeElem makeElem, AddOne addOne) {
+    struct Item { unsigned i, j; long v; };
+    unsigned long long cases = 0;
+    for (unsigned len : {15u, 16u, 17u, 18u, 31u, 32u, 33u, 64u, 65u, 129u, 300u})
+        for (unsigned pattern = 0; pattern < 6; ++pattern) {
+            std::vector<Item> order;
+            for (unsigned k = 0; k < len; ++k) {
+                unsigned a, b;
+                switch (pattern) {
+                case 0: a = k % 3; b = (k * 2) % 3; break;
+                case 1: a = (k * 5) % 7; b = (k * 3) % 7; break;
+                case 2: a = (len - k) % 4; b = k % 2; break;
+                case 3: a = k % 40; b = (k + 1) % 40; break;
+                case 4: a = (k * k) % 5; b = (k * 7 + 1) % 5; break;
+                default: a = 0; b = k % 2; break;
+                }
+                order.push_back({a, b, values[(k / (pattern == 5 ? 1 : 2) + pattern) % values.size()]});
+            }
+            std::vector<Elem> c;
+            for (auto &it : order) c.push_back(makeElem(it.i, it.j, it.v));
+            auto check = [&](const std::string &container, const G &built) {
+                ++cases;
+                breadcrumb(cfgName + " long ctor " + container + " len " + std::to_string(len) + " pattern " + std::to_string(pattern));
+                G exp(0);
+                unsigned mx = 0;
+                for (auto &it : order) mx = std::max(mx, std::max(it.i, it.j));
+                exp.resize(mx + 1);
+                for (auto &it : order) addOne(exp, it.i, it.j, it.v);
+                digest(keyOf(built, false));
+                if (built.getSize() != exp.getSize() || !(built == exp) || !(exp == built) || keyOf(built, false) != keyOf(exp, false))
+                    rep.violation("C09:" + cfgName + ":c09.ctor.long", "constructed from a " + container + " of " + std::to_string(len) + " entries (pattern " + std::to_string(pattern) + ", repeated pairs with different values) differs from adding the same edges one at a time: key " +
+                                                                           keyOf(built, false).substr(0, 300) + " vs " + keyOf(exp, false).substr(0, 300),
+                                  "--variant ctorlong");
+            };
+            check("std::vector", G(c));
+            std::list<Elem> l(c.begin(), c.end());
+            check("std::list", G(l));
+            std::deque<Elem> d(c.begin(), c.end());
+            check("std::deque", G(d));
+            std::forward_list<Elem> f(c.begin(), c.end());
+            check("std::forward_list", G(f));
+        }
+    rep.count("ctor_long_cases", (long long)cases);
+    g_cases += cases;
+    g_nontrivial += cases;
 }
 
 // ----------------------------------------------------------------------------------------- driver
@@ -484,7 +619,50 @@ template <class G> int runOne(const std::string &prop, Family fam, bool directed
         else if (prop == "C09") c09State(g, m, sink);
         else if (prop == "C10") c10State(g, m, sink, true);
     };
-    if (variant == "ctor") {
+    if (variant == "ctorlong") {
+        if constexpr (T::fam == PLAIN) {
+            using L = typename T::Label;
+            if constexpr (!T::labelled) ctorLong<G, Edge>(rep, rep.config, {0}, [](unsigned i, unsigned j, long) { return Edge{i, j}; }, [](G &g, unsigned i, unsigned j, long) { g.addEdge(i, j); });
+            else ctorLong<G, LabeledEdge<L>>(rep, rep.config, {1, 2}, [](unsigned i, unsigned j, long v) { return LabeledEdge<L>{i, j, LabelAlpha<L>::value(v)}; }, [](G &g, unsigned i, unsigned j, long v) { g.addEdge(i, j, LabelAlpha<L>::value(v)); });
+        } else if constexpr (T::fam == MULTI) {
+            ctorLong<G, LabeledEdge<EdgeMultiplicity>>(rep, rep.config, {1, 3}, [](unsigned i, unsigned j, long v) { return LabeledEdge<EdgeMultiplicity>{i, j, (EdgeMultiplicity)v}; }, [](G &g, unsigned i, unsigned j, long v) { g.addMultiedge(i, j, (EdgeMultiplicity)v); });
+        } else {
+            ctorLong<G, LabeledEdge<EdgeWeight>>(rep, rep.config, {-6, 8}, [](unsigned i, unsigned j, long v) { return LabeledEdge<EdgeWeight>{i, j, weightOf(v)}; }, [](G &g, unsigned i, unsigned j, long v) { g.addEdge(i, j, weightOf(v)); });
+        }
+    } else if (variant == "big") {
+        ClauseSink sink;
+        sink.property = prop;
+        if (prop == "C10") c10Big<G>(sink);
+        else if (prop == "C09" || prop == "C08") {
+            // conversions / iteration on larger graphs (26 and 40 vertices: complete, patterned, star)
+            if constexpr (T::fam == PLAIN) {
+                using L = typename T::Label;
+                for (unsigned n : {26u, 40u})
+                    for (int family = 0; family < 3; ++family) {
+                        G g(n);
+                        Model m;
+                        m.directed = T::directed;
+                        m.n = n;
+                        long k = 0;
+                        for (unsigned i = 0; i < n; ++i)
+                            for (unsigned j = 0; j < n; ++j) {
+                                bool in = family == 0 || (family == 1 && (i * 7 + j * 3) % 5 == 0) || (family == 2 && (i == n - 1 || j == 0));
+                                if (!in || m.find(i, j)) continue;
+                                long v = T::labelled ? 1 + (k++ % 2) : 0;
+                                if constexpr (T::labelled) g.addEdge(i, j, LabelAlpha<L>::value(v));
+                                else g.addEdge(i, j);
+                                Ent en;
+                                en.v = v;
+                                m.e[m.canon(i, j)] = en;
+                            }
+                        breadcrumb(rep.config + " big n=" + std::to_string(n) + " family " + std::to_string(family));
+                        if (prop == "C09") c09State(g, m, sink);
+                        else c08State(g, m, sink);
+                    }
+            }
+        }
+        for (auto &f : sink.failures) rep.violation(prop + ":" + rep.config + ":" + f.first, f.second, "--variant big");
+    } else if (variant == "ctor") {
         // edge-list constructors (C09)
         int maxLen = args.getInt("len", 3);
         if constexpr (T::fam == PLAIN) {
